@@ -449,7 +449,7 @@ class VariableCovarianceGaussianEnergy(LikelihoodEnergyOperator):
         """
         r = FieldAdapter(self._domain[self._kr], self._kr)
         ivar = FieldAdapter(self._domain[self._kr], self._ki).real
-        sc = 1. if self._cplx else 0.5
+        sc = np.sqrt(0.5) if self._cplx else 0.5
         f = r.adjoint @ (ivar.sqrt()*r) + ivar.adjoint @ (sc*ivar.log())
         return self._dt, f
 
@@ -490,7 +490,7 @@ class _SpecialGammaEnergy(LikelihoodEnergyOperator):
         # Same local approximation as in
         # `VariableCovarianceGaussianEnergy.get_transformation` with the
         # residual held fixed
-        sc = 1. if self._cplx else 0.5
+        sc = np.sqrt(0.5) if self._cplx else 0.5
         f = (makeOp(self._resi) @ ivar.real.sqrt()).ducktape_left("residual") \
             + ivar.real.log().scale(sc).ducktape_left("inverse_covariance")
         return {"residual": self._dt, "inverse_covariance": np.float64}, f
